@@ -886,3 +886,39 @@ B("PUBLISH.decode refuses a packet that ends with its topic (off-by-one length t
   [(PDU, "        topicLen       = decode16Int(packet_remaining)\n", "        topicLen       = decode16Int(packet_remaining)\n        if topicLen + 2 >= len(packet_remaining):\n            raise ValueError('PUBLISH topic exceeds the packet', topicLen)\n")], {"C01": ["L3"], "C06": ["P7"]})
 N("PUBLISH.decode refuses a packet shorter than its topic", ["C01", "C02", "C06", "C16"],
   [(PDU, "        topicLen       = decode16Int(packet_remaining)\n", "        topicLen       = decode16Int(packet_remaining)\n        if topicLen + 2 > len(packet_remaining):\n            raise ValueError('PUBLISH topic exceeds the packet', topicLen)\n")])
+
+
+# ---- positive examples for rule sites that had none (tools/ruleaudit.py, after the eighth refactoring round) ----
+B("PINGREQ bytes never encoded in the constructor", ["C15"],
+  [(BASE, "        self._pingReq.pdu   = self._pingReq.encode()    # reuses the same PDU over and over again", "        self._pingReq.pdu   = None")], {"C15": ["Q2"]})
+B("keepalive loop targets a module-level function", ["C15"],
+  [(BASE, "                self._pingReq.timer     = task.LoopingCall(self.ping)", "                self._pingReq.timer     = task.LoopingCall(log.debug, 'ping')")], {"C15": ["Q1"]})
+B("accepted CONNACK never starts the keepalive loop", ["C15"],
+  [(BASE, "                self._pingReq.timer     = task.LoopingCall(self.ping)\n                self._pingReq.timer.start(request.keepalive)\n", "                pass\n")], {"C15": ["Q1"]})
+B("PINGRESP deadline handle kept in a local only", ["C15"],
+  [(BASE, "        self._pingReq.alarm = self.callLater(self._pingReq.keepalive, doPingError)", "        alarm = self.callLater(self._pingReq.keepalive, doPingError)")], {"C15": ["Q2"]})
+B("connectionLost schedules a second call besides the notification", ["C13"],
+  [(BASE, "        if self.onDisconnection:\n            self.callLater(0.1, self.onDisconnection, reason)", "        if self.onDisconnection:\n            self.callLater(0.1, self.onDisconnection, reason)\n        self.callLater(0.2, self.ping)")], {"C13": ["R-LOSS"]})
+B("buildProtocol replaces the publish window of a known address", ["C12"],
+  [(FAC, "        v = self.windowPublish.get(addr, dict() )\n        self.windowPublish[addr] = v", "        self.windowPublish[addr] = dict()")], {"C12": ["Y-KEEP"]})
+B("refill registers a copy, not the popped request", ["C10"],
+  [(PS, "                self.factory.windowPublish[cnx][request.msgId] = request\n            self._retryPublish(request, dup)", "                self.factory.windowPublish[cnx][request.msgId] = PUBLISH()\n            self._retryPublish(request, dup)")], {"C10": ["W-FIFO"]})
+B("PUBREC hit path writes the PUBREL twice", ["C09"],
+  [(PS, "            self.factory.windowPubRelease[self.addr][reply.msgId] = reply\n            self._retryRelease(reply, False)", "            self.factory.windowPubRelease[self.addr][reply.msgId] = reply\n            self._retryRelease(reply, False)\n            self.transport.write(bytes(reply.encoded))")], {"C09": ["Q-ORDER"]})
+B("packetTypes swaps SUBACK and UNSUBACK names", ["C14"],
+  [(BASE, '                   0x09: "SUBACK",  0x0A: "UNSUBSCRIBE", 0x0B: "UNSUBACK",', '                   0x09: "UNSUBACK",  0x0A: "UNSUBSCRIBE", 0x0B: "SUBACK",')], {"C14": ["M-TYPETABLE", "M-DECODE-CLASS", "M-CELL", "M-DISPATCH"]})
+B("SUBSCRIBE registered under a second identifier", ["C07"],
+  [(PS, "        self.factory.windowSubscribe[self.addr][request.msgId] = request\n        self._retrySubscribe(request, False)", "        self.factory.windowSubscribe[self.addr][self.factory.makeId()] = request\n        self._retrySubscribe(request, False)")], {"C07": ["S-ID"]})
+B("subscribe window rejection still takes an identifier", ["C07"],
+  [(PS, "        try:\n            self._checkSubscribe(request)\n            request.msgId = self.factory.makeId()\n            request.encode()\n        except Exception as e:\n            return defer.fail(e)",
+    "        try:\n            self._checkSubscribe(request)\n            request.msgId = self.factory.makeId()\n            request.encode()\n        except Exception as e:\n            self.transport.write(bytes(bytearray((0xC0, 0))))\n            return defer.fail(e)")], {"C07": ["S-WINDOW", "S-FLOW", "S-ARGS"]})
+B("connect() changes state before the CONNECT is written", ["C04"],
+  [(BASE, "        self.transport.write(pdu)\n        # Changes state and returns deferred\n        self.state = self.CONNECTING\n", "        self.state = self.CONNECTING\n        self.transport.write(pdu)\n")], {"C04": ["K1"]})
+B("connect() keeps the timeout handle in a local only", ["C04"],
+  [(BASE, "        request.alarm = self.callLater(request.keepalive or 10, connectError)\n        request.deferred = defer.Deferred()", "        alarm = self.callLater(request.keepalive or 10, connectError)\n        request.alarm = None\n        request.deferred = defer.Deferred()")], {"C04": ["K1", "K2", "K3"]})
+B("connect() returns a Deferred other than the one it stores", ["C04"],
+  [(BASE, "        self.connReq = request  # keep track of this request until CONNACK or timeout\n        return request.deferred", "        self.connReq = request  # keep track of this request until CONNACK or timeout\n        return defer.Deferred()")], {"C04": ["K1"]})
+B("QoS 1 PUBLISH also entered into the receive window", ["C06"],
+  [(PS, "            self.transport.write(reply.encode())\n            self._deliver(response)\n        elif response.qos == 2:", "            self.transport.write(reply.encode())\n            self.factory.windowPubRx[self.addr][response.msgId] = response\n            self._deliver(response)\n        elif response.qos == 2:")], {"C06": ["P1", "P5", "P6"]})
+B("PUBACK carries the next identifier, not the received one", ["C06"],
+  [(PS, "            reply = PUBACK()\n            reply.msgId = response.msgId", "            reply = PUBACK()\n            reply.msgId = (response.msgId + 1) % 65536")], {"C06": ["P3"]})
